@@ -39,6 +39,8 @@ type ModeStep struct {
 	Reach  string `json:"reach,omitempty"`
 	Stream int    `json:"stream,omitempty"`
 	Typ    string `json:"typ,omitempty"` // PING | FIND_NODE | GET_VALUE
+	// lookup: the stream arrives over a connection this node dialed itself
+	OutConn bool `json:"outconn,omitempty"`
 }
 
 type ModeScenario struct {
@@ -191,7 +193,15 @@ func runModeInBubble(t *testing.T, sc *ModeScenario, ch sim.Chooser) []sim.Ev {
 				return
 			}
 			// the stream exists on the connection; its protocol is set only just before the handler runs
-			s := h.InboundStream(remotes[st.Stream%3], sim.DefaultAddr(20+st.Stream), "")
+			rp := remotes[st.Stream%3]
+			if len(h.Net().ConnsToPeer(rp)) == 0 {
+				dir := network.DirInbound
+				if st.OutConn {
+					dir = network.DirOutbound
+				}
+				h.Net().AddConn(rp, sim.DefaultAddr(20+st.Stream), dir)
+			}
+			s := h.InboundStream(rp, sim.DefaultAddr(20+st.Stream), "")
 			s.Tag = st.Stream
 			smu.Lock()
 			streams[st.Stream] = &modeStream{s: s, hd: hd}
@@ -297,7 +307,7 @@ func genModeScenario(r *rand.Rand) *ModeScenario {
 		case x < 4:
 			sc.Steps = append(sc.Steps, ModeStep{Kind: "emit", Reach: []string{"public", "private", "unknown"}[r.Intn(3)]})
 		case x < 8:
-			sc.Steps = append(sc.Steps, ModeStep{Kind: "lookup", Stream: 1 + r.Intn(nstreams)})
+			sc.Steps = append(sc.Steps, ModeStep{Kind: "lookup", Stream: 1 + r.Intn(nstreams), OutConn: r.Intn(3) == 0})
 		case x < 11:
 			sc.Steps = append(sc.Steps, ModeStep{Kind: "invoke", Stream: 1 + r.Intn(nstreams)})
 		case x < 17:
@@ -320,7 +330,7 @@ func modeSystematic() []*ModeScenario {
 				out = append(out, &ModeScenario{Seed: 7, Cfg: cfg, Gates: true, Steps: []ModeStep{
 					{Kind: "emit", Reach: first}, {Kind: "settle"},
 					{Kind: "lookup", Stream: 1}, {Kind: "invoke", Stream: 1}, {Kind: "req", Stream: 1, Typ: "GET_VALUE"},
-					{Kind: "lookup", Stream: 2},
+					{Kind: "lookup", Stream: 2, OutConn: true},
 					{Kind: "emit", Reach: second},
 					{Kind: "req", Stream: 1, Typ: "PING"},
 					{Kind: "invoke", Stream: 2}, {Kind: "req", Stream: 2, Typ: "PING"},
